@@ -272,9 +272,8 @@ def run(ctx):
                        "(electron=0), sweeps all rotation immediates in both hardware settings")
     ctx.trusted.append("harness/qcommon.py: independent numpy definitions of the gates (oracle) and numeric evaluation "
                        "of printed K32 values")
-    ctx.assume.append("the complex numbers with omega = e^{i pi/32} are a commutative ring with omega^32 = -1 and 2 "
-                      "invertible (standard mathematics, not formalised); C07_eval_hom transfers every K32 identity to "
-                      "any such ring")
+    ctx.assume.append("the ring-generic theorems (C07.v) are axiom-free; their instantiation at the complex numbers "
+                      "(C07_complex.v: omega = cos(pi/32) + i sin(pi/32), de Moivre) uses the axioms of Coq's reals")
     ctx.assume.append("noise-free operator semantics; an instruction's meaning is the matrix of its mnemonic's definition "
                       "(exp(-i theta/2 sigma); NV crot = |0><0| (x) R(theta) + |1><1| (x) R(-theta), control = first operand)")
     ctx.assume.append("MOV with operand registers unknown at transpile time is taken as electron -> carbon, as the "
@@ -316,7 +315,7 @@ def run(ctx):
             ctx.distinct.add(("hw", ax, n, d))
     res = ctx.props("C07")
     if res.ok:
-        ctx.coverage["coqc_props_s"] = None
+        qc.complex_props(ctx, "C07_complex")
     else:
         search(ctx, data, rows)
     check_published(ctx, spec)
